@@ -848,7 +848,16 @@ def r18e(P, R):
                and peel_ty(c.get("t", "") or "").startswith(("std::collections::hash::", "alloc::collections::btree::", "hashbrown::", "indexmap::"))
                and "Error" in norm(c.get("t", "") or "")]
         pos_cmp = [g for g in P.trait_impls("core::cmp::Ord", "cmp") + P.trait_impls("core::cmp::PartialEq", "eq") if (g.self_adt or "").endswith("::Pos") and not g.derived]
-        blind = pos_cmp and not any(fld == "file" for g in pos_cmp for a_, fld in field_reads(g))
+        blind = (pos_cmp and not any(fld == "file" for g in pos_cmp for a_, fld in field_reads(g))) or \
+                (eq_impls and not any(fld == "file" for g in eq_impls for a_, fld in field_reads(g)))
+        # ... or by comparing a diagnostic with the ones already collected (`seen == err`, `list.contains(&err)`)
+        for c in fi.walk():
+            if c.get("k") == "Binary" and c.get("op") in ("==", "!=") and any("Error" in norm((c[s_].get("t") or "")) for s_ in ("l", "r")):
+                dd.append("`%s` between diagnostics" % c["op"])
+            elif c.get("k") == "MethodCall" and c["method"] in ("contains", "eq", "ne") and "Error" in norm(c.get("recv_ty", "") or "") \
+                    and not peel_ty(c.get("recv_ty", "") or "").startswith(("alloc::string::String", "str")):
+                dd.append("`%s` on diagnostics" % c["method"])
+        eq_impls = [g for g in P.trait_impls("core::cmp::PartialEq", "eq") if not g.derived and (g.self_adt or "").split("::")[-1] in ("CheckError", "PositionedError")]
         R.check("R18-e", "no-deduplication:" + f.name, not dd, "diagnostics are passed on as produced",
                 "%s de-duplicates diagnostics (%s): diagnostics that compare equal under the list's own equality%s "
                 "collapse into one, so an offending file may be named by no diagnostic" % (
@@ -1133,6 +1142,64 @@ def r18h(P, R):
                                             sorted(rs_) or "plain lengths", (" (through %s)" % ", ".join(rvia)) if rvia else ""), loc=w.loc())
 
 
+def r18i(P, R):
+    """FileStore's precondition (documented, enforced by a panic): no schema-side file is added once an operation file was.  In every
+    function that does both - directly or through what it calls (plugin host included) - the calls that can register a schema
+    file precede, in program order, the first call that can register an operation file."""
+    fs = [a for p_, a in P.adts.items() if p_.startswith(CLI) and p_.split("::")[-1] == "FileStore"]
+    if len(fs) != 1:
+        raise AnchorMissing("type FileStore of the CLI not found")
+    FS = fs[0].path
+
+    def adds(f):
+        """[(node index, kind literal or None)] of FileStore::add-style calls in f"""
+        out = []
+        for i, (x, _) in enumerate(f.nodes()):
+            if x.get("k") == "MethodCall" and (call_name(x) or "") in P.fns and P.fns[call_name(x)].self_adt == FS and P.fns[call_name(x)].sig_inputs \
+                    and P.fns[call_name(x)].sig_inputs[0].startswith("&mut") and any("FileKind" in t for t in P.fns[call_name(x)].sig_inputs):
+                kinds = {norm(y.get("def")).split("::")[-1] for a_ in x["args"] for y in subnodes(a_) if y.get("k") == "Path" and "FileKind::" in norm(y.get("def") or "")}
+                out.append((i, next(iter(kinds)) if len(kinds) == 1 else None))
+        return out
+    live = [f for f in P.fns.values() if _live(f) and f.crate == "nitrogql_cli" and f.kind in ("Fn", "AssocFn")]
+    direct = {f.path: adds(f) for f in live}
+    op_fns = {p_ for p_, a in direct.items() if any(k == "Operation" for _, k in a)}
+    sc_fns = {p_ for p_, a in direct.items() if any(k not in (None, "Operation") for _, k in a)}
+    if not op_fns or not sc_fns:
+        R.undecided("R18-h", "schema-before-operations", "the registrations of schema and operation files in the FileStore are not calls with a literal FileKind")
+        return
+    reach_op = {f.path for f in live if P.reachable([f]) & op_fns}
+    reach_sc = {f.path for f in live if P.reachable([f]) & sc_fns}
+    n = 0
+    for f in sorted(live, key=lambda g: g.path):
+        ops, scs = [], []
+        for i, k in direct[f.path]:
+            (ops if k == "Operation" else scs if k is not None else []).append((i, "add_file(%s)" % k))
+        for i, (x, _) in enumerate(f.nodes()):
+            c = call_name(x) if x.get("k") in ("Call", "MethodCall") else None
+            if not c or c not in P.fns or c == f.path or P.fns[c].self_adt == FS:
+                continue
+            targets = {c} | ({g.path for g in P.impls.get((P.fns[c].raw.get("trait_default_of") or "", P.fns[c].name), [])})
+            o, s_ = bool(targets & reach_op), bool(targets & reach_sc)
+            if o and not s_:
+                ops.append((i, short(c)))
+            elif s_ and not o:
+                scs.append((i, short(c)))
+        if not ops or not scs:
+            continue
+        n += 1
+        first_op = min(i for i, _ in ops)
+        late = sorted(w for i, w in scs if i > first_op)
+        key = "schema-before-operations:" + short(f.path)
+        if late:
+            R.violated("R18-h", key, "%s can register a schema-side file (%s) after it has started registering operation files (%s): FileStore::add_file panics "
+                       "then (`Cannot add schema file after operation file`), and the CLI ends with neither diagnostics nor output" % (
+                           f.path, ", ".join(sorted(set(late))), sorted(w for i, w in ops if i == first_op)[0]), loc=f.loc())
+        else:
+            R.holds("R18-h", key, "every call that can add a schema file precedes the first one that can add an operation file", loc=f.loc())
+    if not n:
+        R.undecided("R18-h", "schema-before-operations", "no function registers both schema and operation files")
+
+
 def r18pc(P, R):
     from facts import Program
     SC = Program(harness.selfcheck_facts())
@@ -1142,7 +1209,7 @@ def r18pc(P, R):
     R.check("R18-pc", "control:fs-write", set(wr) == {"writes", "opens_without_truncate"}, "file-system-write control detected", "self-check: fs::write in the control crate is seen as %s" % wr)
 
 
-RULES = [("R18-pc", r18pc), ("R18-a", r18a), ("R18-b", r18b), ("R18-c", r18c), ("R18-c", gate), ("R18-d", r18d), ("R18-e", r18e), ("R18-f", r18f), ("R18-g", r18g), ("R18-h", r18h)]
+RULES = [("R18-pc", r18pc), ("R18-a", r18a), ("R18-b", r18b), ("R18-c", r18c), ("R18-c", gate), ("R18-d", r18d), ("R18-e", r18e), ("R18-f", r18f), ("R18-g", r18g), ("R18-h", r18h), ("R18-h", r18i)]
 EXPLANATION = (
     "Call-graph and control-context facts that hold on all executions: (R18-a) one process::exit site whose code is 0 exactly in "
     "the Ok arm, every diagnostic-recording site lies on a path that returns Err, check succeeds only under errors.is_empty(); "
